@@ -1717,6 +1717,16 @@ theorem c12_root_lookup_after_swap (N : Nat) (keys : List Nat) (i j k : Nat) (hN
 example : genNaryKeys 2 (swapAt [7, 8, 9] 0 2) (some 7) = .tree (naryClosed 2 2 3) ∧
     genNaryKeys 2 [7, 8, 9] (some 7) = .tree (naryClosed 2 0 3) := by decide
 
+/-- **how the big generator spreads an incomplete last level over its parents** has no closed form worth the
+name: parent `i` of `L` gets `min N ((rest so far)·(i+1)/L)` children, where "rest so far" already shrinks
+inside the level.  Twelve nodes with `N = 4`: the four parents of the last level get 1, 3, 2 and 1 children —
+neither packed to the left (as the n-ary generator does) nor balanced.  What *is* proved for every
+configuration: the level sizes (`c12_big_levels`), at most `N` per parent (`c12_big_branching`), nothing lost
+(`c12_big_size`). -/
+example : genBig { N := 4, nodes := 12, hosts := List.replicate 12 0 } =
+    .tree [[(0, 0)], [(1, 0), (2, 0), (3, 0), (4, 0)],
+           [(5, 0), (6, 1), (7, 1), (8, 1), (9, 2), (10, 2), (11, 3)]] := by decide
+
 /-! ### the code regions the model stands for
 Regenerated from /repo's source on every run (`harness/cmd/astfacts` → `OnetVerif/Shapes.lean`): the
 calls that matter for synchronisation and data flow, the lock regions and (for decision logic) the
